@@ -1,5 +1,6 @@
 import Pyxv.Model.RowLoop
 import Pyxv.Model.Rows
+import Pyxv.Generated.Tables
 /-! The row loop with explicit partial operations, instantiated with the total functions of `Pyxv.Rows`
 (regexes, `is_xml_tag`, yes/no table) and a direct transcription of `parameters_generic.parse`'s splitting. -/
 namespace Pyxv.RowLoop
@@ -17,8 +18,10 @@ def paramsParse (s : Str) : Bool :=
 def ctlOf' (s : Str) : Option Ctl :=
   if s = k "group" then some .group else if s = k "repeat" then some .rep else if s = k "loop" then some .loop else none
 
+/-- `os.path.splitext(list_name)[1] in EXTERNAL_INSTANCE_EXTENSIONS` for names with one dot-suffix: the extension
+    list is the regenerated `constants.EXTERNAL_INSTANCE_EXTENSIONS` (pinned by `ext_table_pinned` in the proofs) -/
 def fileExt (ln : Str) : Bool :=
-  endsWith ln (k ".csv") || endsWith ln (k ".xml") || endsWith ln (k ".geojson")
+  Pyxv.Gen.externalInstanceExtensions.any fun e => endsWith ln e.toList && ln.length > e.length
 
 def osmOf (t : Str) : Option (Option Str) :=
   if startsWith t (k "osm") then
